@@ -18,7 +18,7 @@ class P(StreamProperty):
     pid = 'C09'
     module = 'OpenFecVerif.Props.C09'
     theorems = ['C09_accept_iff', 'C09_limits', 'C09_reject_keeps_unconfigured', 'C09_bad_esi_rejected']
-    rule = ('(a) parameter grid on the real library: for each codec every field in {0,1,2,limit-1,limit,limit+1,2^16,2^31-1,2^31,2^32-1} (others valid), every m in 0..17, N1 in 0..255 boundary values, '
+    rule = ('(a) parameter grid on the real library: for each codec every field in {0,1,2,limit-1,limit,limit+1,2^16,2^31-1,2^31,2^32-1} (others valid), every m in 0..17 and values congruent to 4 and 8 modulo 32, 256, 4096 and 32768, N1 in 0..255 boundary values, '
             'seed boundary values; each accepted configuration is followed by a full encode/decode cycle; (b) every single-argument corruption of otherwise valid calls (NULL session, NULL buffer, NULL table, '
             'ESI = n, n+1, 2^32-1, build ESI < k, wrong role) followed by a check that the session still works; oracle: OK <=> inside the advertised limits, accepted => decodes correctly, corrupted call => error status; '
             'non-trivial = distinct parameter points / corruption scripts')
@@ -111,7 +111,7 @@ class P(StreamProperty):
                 if tier == 'quick' and 10 < k < 245 and k % 16: continue
                 cases.append(self.cycle('p%d' % i, 1, k, r, 2, 0, 0, 0, rng)); i += 1
         # RS 2^m
-        for m in list(range(0, 18)) + [255, 256, 65535]:
+        for m in list(range(0, 18)) + [32, 36, 40, 64, 68, 72, 132, 136, 255, 256, 260, 264, 4100, 4104, 32772, 32776, 65535, 65532, 65528]:
             cases.append(self.cycle('p%d' % i, 2, 3, 2, 4, m, 0, 0, rng)); i += 1
         for m, lim in ((4, 15), (8, 255)):
             for k in vals(lim):
